@@ -3,6 +3,7 @@
   prefix / local-name spans abut the colon (token-shape contract) and the text / CDATA tokens
   come in source order (`TextOrdered`: an earlier part does not start after a later part ends).
 -/
+import XotModel.Lemmas.ParseQName
 import XotModel.Model.Parse
 import XotModel.Model.TokenShape
 import XotModel.Lemmas.ParseSpans
@@ -316,26 +317,26 @@ theorem addText_ord {b : Builder} {rest : List Token} (content : Str) (s : StrSp
   · simp only; rw [h1]; exact hx.1
   · simp only; rw [h1]; exact hx.2
 
-theorem step_ord {b : Builder} (t : Token) (rest : List Token) (h : SpansOrd b (t :: rest)) (hab : t.Abuts)
+theorem stepCore_ord {b : Builder} (t : Token) (rest : List Token) (h : SpansOrd b (t :: rest)) (hab : t.Abuts)
     (hlater : ∀ sa, t.textSpan? = some sa → ∀ t' ∈ rest, ∀ sb, t'.textSpan? = some sb → sa.start ≤ sb.stop) :
-    StepOrd rest (b.step t) := by
+    StepOrd rest (b.stepCore t) := by
   have h' : SpansOrd b rest := ⟨h.1, h.2.1.tail, h.2.2⟩
   cases t with
   | «attribute» p l v sp =>
-    simp only [Builder.step]
+    simp only [Builder.stepCore]
     split
     · exact prefix_ord h' _ _ (fromPrefixName_ord hab)
     · split
       · exact prefix_ord h' _ _ (fromPrefixName_ord hab)
       · exact attribute_ord h' v hab
   | text t =>
-    simp only [Builder.step, Builder.text]
+    simp only [Builder.stepCore, Builder.text]
     split
     · rename_i e he
       exact contentErr_ord he
     · exact addText_ord _ t (.text t) rfl h (hlater t rfl)
   | cdata t sp =>
-    simp only [Builder.step, Builder.cdata]
+    simp only [Builder.stepCore, Builder.cdata]
     split
     · exact h'
     · exact addText_ord _ t (.cdata t sp) rfl h (hlater t rfl)
@@ -349,7 +350,7 @@ theorem step_ord {b : Builder} (t : Token) (rest : List Token) (h : SpansOrd b (
     | «open» => exact openElement_ord h'
     | close p l => exact closeElement_ord h' sp hab
     | empty =>
-      simp only [Builder.step]
+      simp only [Builder.stepCore]
       have ho := openElement_ord h'
       cases hb : b.openElement with
       | ok b1 => rw [hb] at ho; exact closeImmediate_ord ho sp
@@ -358,7 +359,7 @@ theorem step_ord {b : Builder} (t : Token) (rest : List Token) (h : SpansOrd b (
   | comment t sp =>
     exact spansOrd_ext h' (NonTextExt.add _ (by simp) (StrSpan.span_ord t)) h'.2.2
   | pi target content sp =>
-    simp only [Builder.step]
+    simp only [Builder.stepCore]
     split
     · exact StrSpan.span_ord target
     refine spansOrd_ext h' ?_ h'.2.2
@@ -369,7 +370,7 @@ theorem step_ord {b : Builder} (t : Token) (rest : List Token) (h : SpansOrd b (
       exact (NonTextExt.add _ (by simp) (StrSpan.span_ord target)).trans
         (NonTextExt.add _ (by simp) (StrSpan.span_ord c))
   | declaration v e s sp =>
-    simp only [Builder.step]
+    simp only [Builder.stepCore]
     split
     · exact StrSpan.span_ord v
     · exact h'
@@ -377,6 +378,23 @@ theorem step_ord {b : Builder} (t : Token) (rest : List Token) (h : SpansOrd b (
   | dtdEnd sp => exact StrSpan.span_ord sp
   | emptyDtd sp => exact StrSpan.span_ord sp
   | entityDecl sp => exact StrSpan.span_ord sp
+
+/-- The span of the `check_qname` error: from the colon to the end of the local name. -/
+theorem qnameError_ord {t : Token} {p l : StrSpan} (hab : t.Abuts) (hq : t.qname = some (p, l))
+    (hp : p.bareColon = true) : p.start ≤ l.stop := by
+  have hA : Abut p l := by
+    rcases Token.qname_elim hq with ⟨v, sp, rfl⟩ | ⟨sp, rfl⟩ | ⟨sp, rfl⟩ <;> exact hab
+  simp only [StrSpan.bareColon, Bool.and_eq_true, bne_iff_ne, ne_eq] at hp
+  rcases hA with ⟨_, h0⟩ | h
+  · exact absurd h0 hp.2
+  · unfold StrSpan.stop at h ⊢; omega
+
+theorem step_ord {b : Builder} (t : Token) (rest : List Token) (h : SpansOrd b (t :: rest)) (hab : t.Abuts)
+    (hlater : ∀ sa, t.textSpan? = some sa → ∀ t' ∈ rest, ∀ sb, t'.textSpan? = some sb → sa.start ≤ sb.stop) :
+    StepOrd rest (b.step t) := by
+  refine b.step_cases t (fun _ => stepCore_ord t rest h hab hlater) ?_
+  intro p l hq hp
+  exact qnameError_ord hab hq hp
 
 theorem run_ord (lexErr : Option Nat) (ts : List Token) :
     ∀ {b : Builder}, SpansOrd b ts → (∀ t ∈ ts, t.Abuts) → TextOrdered ts →
